@@ -25,8 +25,8 @@ ASSUMPTIONS = [
     "loads with the declared shape and the truth values (a cut in a region the reader never uses "
     "is legitimately invisible); any Exception is accepted for truncation, an OSError for a "
     "missing file",
-    "'terminates promptly' = finishes within %d simulator events (an undamaged open of these "
-    "products takes < 100)" % EVENT_BUDGET,
+    "'terminates promptly' = the damaged open (and the loads that judge a returned tree) finish "
+    "within %d + 10 x the simulator events the undamaged open + full load needed" % EVENT_BUDGET,
 ]
 
 
@@ -137,6 +137,7 @@ def execute(plan):
 
     try:
         try:
+            m_ref = SIM.mark()
             ref = w.open(records_per_chunk=r)
             for _, da in [(g, ref["imagery"][prod.groups[i]]["data"]) for g, i in
                           zip(prod.images, prod.images)]:
@@ -144,6 +145,8 @@ def execute(plan):
         except Exception as e:  # noqa: BLE001 - undamaged product does not open: not C18's matter
             bump("reference-raised:" + type(e).__name__)
             return common.outcome(SIM, violations, keys, stats)
+        # "promptly" = within a multiple of the events the undamaged open + full load needed
+        budget = EVENT_BUDGET + 10 * (SIM.mark() - m_ref)
         n0 = prod.truth[prod.images[0]].shape[0]
         rel = common.rpc_relation(n0, r)
         for fault in plan["faults"]:
@@ -163,7 +166,7 @@ def execute(plan):
                 SIM.fault(fault["kind"])
             site = f"{kind}:{cc}"
             start = SIM.mark()
-            SIM.max_events = start + EVENT_BUDGET
+            SIM.max_events = start + budget
             tree = err = None
             try:
                 tree = w.open(records_per_chunk=r)
@@ -181,7 +184,7 @@ def execute(plan):
                 SIM.read_fault = None
             if err == "budget":
                 violations.append(Violation(ID, "no-prompt-termination", site, {
-                    "fault": fault, "events": EVENT_BUDGET, "rpc": r}))
+                    "fault": fault, "events": budget, "rpc": r}))
                 outcome = "budget"
             elif err is not None:
                 outcome = "raised"
